@@ -259,14 +259,16 @@ fn check_sequence<T: Sc>(ctx: &Ctx, cfg: &Cfg, seq: &[Call], tally: &mut (u64, u
 
 fn alphabet(cfg: &Cfg, thorough: bool) -> Vec<Call> {
     let mut v = vec![];
-    let rows: &[usize] = &[3, 1, 0, 2, 4];
-    let cols: Vec<usize> = if cfg.mrhs { vec![1, 2, 0, 3] } else { vec![1] };
-    for &r in rows {
+    let big = cfg.out_len >= 100;
+    let rows: Vec<usize> = if big { vec![cfg.out_len, cfg.out_len - 1, 0, 256] } else { vec![3, 1, 0, 2, 4] };
+    let cols: Vec<usize> = if cfg.mrhs { if big { vec![1, 40] } else { vec![1, 2, 0, 3] } } else { vec![1] };
+    for &r in &rows {
         for &c in &cols {
             v.push(Call::Obs { rows: r, cols: c });
         }
     }
-    for len in [3usize, 0, 2, 4, 1] {
+    let wlens: Vec<usize> = if big { vec![cfg.out_len, cfg.out_len - 1, 0, cfg.out_len * 40] } else { vec![3, 0, 2, 4, 1] };
+    for len in wlens {
         for kind in [1u8, 0] {
             if len == 0 && kind == 0 {
                 continue;
@@ -304,7 +306,7 @@ fn main() {
         let mut tally = (0u64, 0u64, 0u64);
         for mrhs in [false, true] {
             for par in [false, true] {
-                for out_len in [3usize, 1, 0] {
+                for out_len in [3usize, 1, 0, 300] {
                     for tiny_d2 in [false, true] {
                         if tiny_d2 && out_len != 3 {
                             continue;
@@ -313,10 +315,13 @@ fn main() {
                             if f32_ && !thorough && (par || tiny_d2 == false && mrhs) {
                                 continue;
                             }
+                            if out_len >= 100 && (f32_ || (par && !thorough)) {
+                                continue;
+                            }
                             let cfg = Cfg { mrhs, par, out_len, tiny_d2, f32_ };
                             let alpha = alphabet(&cfg, thorough);
                             // sequences of length 4 only for the mrhs constructors in thorough mode are costly: full anyway
-                            for len in 0..=lmax {
+                            for len in 0..=(if out_len >= 100 { lmax.min(3) } else { lmax }) {
                                 let total = (alpha.len() as u64).pow(len as u32);
                                 let mut start = 0u64;
                                 while start < total {
